@@ -366,6 +366,8 @@ pub enum Op {
 	LogFuzz { muts: Vec<LogMutation>, adopt: bool },
 	LockTree(u8, usize),
 	UnlockTree(u8, usize),
+	/// Fetch (and keep, unlocked) the reader handle of a tree; a later LockTree uses it.
+	TreeHandle(u8, usize),
 	/// Column administration on the closed database; with `true` the call is made on a copy of the
 	/// directory that still has unreplayed logs.
 	Admin(AdminOp, bool),
@@ -498,6 +500,7 @@ impl Op {
 				json!({"op": "logfuzz", "muts": muts.iter().map(mut_json).collect::<Vec<_>>(), "adopt": adopt}),
 			Op::LockTree(c, k) => json!({"op": "locktree", "col": c, "key": k}),
 			Op::UnlockTree(c, k) => json!({"op": "unlocktree", "col": c, "key": k}),
+			Op::TreeHandle(c, k) => json!({"op": "treehandle", "col": c, "key": k}),
 			Op::Admin(a, pending) => match a {
 				AdminOp::AddColumn(k) => json!({"op": "admin", "what": "add", "kind": k, "pending": pending}),
 				AdminOp::DropLastColumn => json!({"op": "admin", "what": "droplast", "pending": pending}),
@@ -579,6 +582,8 @@ impl Op {
 			"locktree" => Op::LockTree(j["col"].as_u64().unwrap() as u8, j["key"].as_u64().unwrap() as usize),
 			"unlocktree" =>
 				Op::UnlockTree(j["col"].as_u64().unwrap() as u8, j["key"].as_u64().unwrap() as usize),
+			"treehandle" =>
+				Op::TreeHandle(j["col"].as_u64().unwrap() as u8, j["key"].as_u64().unwrap() as usize),
 			"admin" => Op::Admin(match j["what"].as_str().unwrap() {
 				"add" => AdminOp::AddColumn(j["kind"].as_str().unwrap().to_string()),
 				"droplast" => AdminOp::DropLastColumn,
@@ -611,6 +616,7 @@ impl Op {
 			Op::LogFuzz { .. } => "logfuzz",
 			Op::LockTree(..) => "locktree",
 			Op::UnlockTree(..) => "unlocktree",
+			Op::TreeHandle(..) => "treehandle",
 			Op::Admin(..) => "admin",
 		}
 	}
